@@ -420,7 +420,7 @@ def NewAxesSpec (f : V3 K → V3 K → Quat K) : Prop :=
     qlen2 (f newz newx) = 1 ∧ rotate (normalize newz) (f newz newx) = ez ∧
     rotate (normalize (vadd newx (vmul (normalize newz) (-(dot (normalize newz) newx))))) (f newz newx) = ex
 
-/-- full statement, true with the repairs of fixes/F7.diff and fixes/F18.diff, including `newz`
+/-- full statement, true with the repairs of fixes/F7.diff and fixes/C20-to-new-axes-orthogonalise.diff, including `newz`
     antiparallel to z and `newx` ending up antiparallel to x -/
 theorem c20_to_new_axes_repaired_full (hs : SqrtSpec K) :
     NewAxesSpec (toNewAxesFixed : V3 K → V3 K → Quat K) := by
